@@ -50,6 +50,8 @@ type Thread struct {
 	done    bool
 	yieldAt uint64
 	Steps   int
+	held    []any // mutexes held (partial-order reduction: part of the footprint of the next step)
+	sleepMask uint64 // ready cases of a pending select when the thread was put to sleep
 }
 
 // PointInfo describes one decision point of an execution (a place where more than one
@@ -62,6 +64,7 @@ type PointInfo struct {
 	Thread     int    // thread that was running
 	Step       int    // global step number
 	Alts       []int  // thread ids (>=0) or -(timer index+1) per alternative; nil for value choices
+	Sleep      []int  // partial-order reduction: thread ids asleep at this point
 }
 
 type Terminal int
@@ -109,6 +112,36 @@ type Sched struct {
 	timers   []*timerObj
 	// TimerAlts: offer "fire the earliest timer now" as an alternative while threads are enabled.
 	TimerAlts bool
+	// TimerAltBudget > 0: at most that many timers fire as an alternative to a runnable thread
+	// (a periodic ticker would otherwise make the schedule tree infinite); 0: no limit.
+	TimerAltBudget int
+	timerAltsUsed  int
+	// Serial: while set (by the scenario body, for its set-up and observation phases) thread
+	// switches take the default alternative and are not decision points.
+	Serial bool
+	// QuiesceFirst: a thread waiting in AwaitQuiescence runs as soon as no thread is enabled,
+	// before pending timers fire (for code with a periodic ticker, which never goes quiet).
+	QuiesceFirst bool
+	// POR: sleep-set partial-order reduction. SleepAdd[k] lists the threads that go to sleep at
+	// decision k (the siblings the explorer has explored, or queued, before this branch); a
+	// sleeping thread is not scheduled until a step that does not commute with its pending
+	// operation has been executed. SleepBlocked: the execution was cut because every enabled
+	// thread was asleep (it is equivalent to one explored elsewhere).
+	POR          bool
+	// Hint: thread ids to prefer, in this order, at the decisions after the replayed prefix (the
+	// explorer's guess of the order that realises the race reversal it is after; any order is
+	// sound, a good one avoids executions that end up cut by the sleep sets)
+	Hint         []int
+	SleepAdd     map[int][]int
+	SleepBlocked bool
+	sleep        map[int]bool
+	stepObjs     []any
+	stepAll      bool
+	// Steps is the executed sequence of steps (a step: one thread from one scheduling point to
+	// its next one, or a timer firing) with what the explorer needs to find the races in it.
+	Steps     []StepRec
+	stepPoint int // decision index taken when the running step was chosen, -1 if there was no choice
+	snap      []threadSnap
 	// Divergence is set when the replayed prefix asks for an alternative that does not exist.
 	Divergence string
 	// Log of (thread, kind) per step when TraceOn (for determinism checks / replay files).
@@ -136,7 +169,7 @@ var neverFire = 50 * 365 * 24 * time.Hour
 // NewSched creates a scheduler that replays prefix and then takes alternative 0 everywhere.
 //go:norace
 func NewSched(prefix []int) *Sched {
-	return &Sched{prefix: prefix, Horizon: 200000, finished: make(chan struct{}, 1), tdone: make(chan struct{}, 1), objIDs: map[any]int{}}
+	return &Sched{prefix: prefix, Horizon: 200000, finished: make(chan struct{}, 1), tdone: make(chan struct{}, 1), objIDs: map[any]int{}, stepPoint: -1}
 }
 
 // Run executes body as thread 0 under the scheduler until a terminal state, then tears all
@@ -259,6 +292,22 @@ func AwaitQuiescence() {
 		return
 	}
 	Point(OpQuiesce, nil, func() bool { return false })
+}
+
+// SetSerial switches decision points off (true) or on (false) for the current execution; see Sched.Serial.
+//go:norace
+func SetSerial(on bool) {
+	if Cur != nil {
+		Cur.Serial = on
+	}
+}
+
+// SetQuiesceFirst: see Sched.QuiesceFirst.
+//go:norace
+func SetQuiesceFirst(on bool) {
+	if Cur != nil {
+		Cur.QuiesceFirst = on
+	}
 }
 
 // ThreadsState lists the unfinished threads with the kind of operation they are parked on.
@@ -405,6 +454,10 @@ func (s *Sched) fireTimer(tm *timerObj) {
 	}
 	s.epoch++
 	tm.fire(now)
+	if s.POR {
+		s.Steps = append(s.Steps, StepRec{Tid: -(tm.seq + 1), Point: s.stepPoint, All: true})
+		s.stepPoint = -1
+	}
 	if s.TraceOn {
 		s.Trace = append(s.Trace, fmt.Sprintf("timer#%d", tm.seq))
 	}
@@ -414,6 +467,299 @@ func (s *Sched) fireTimer(tm *timerObj) {
 // Returns nil when the execution is over (finish() has been called).
 //go:norace
 func (s *Sched) pick(cur *Thread) *Thread {
+	if s.POR {
+		s.endStep()
+	}
+	t := s.pick0(cur)
+	if t != nil && s.POR {
+		s.beginStep(t)
+	}
+	return t
+}
+
+// ---- sleep sets ------------------------------------------------------------------------------
+
+// StepRec describes one executed step.
+type StepRec struct {
+	Tid     int   // thread id; -(n+1) for the firing of timer n
+	Point   int   // index of the decision that chose this step, -1 if it was the only possibility
+	Objs    []any // synchronisation objects used
+	All     bool  // does not commute with anything (clock, timers, random numbers, file system)
+	Changed []int // threads whose pending operation became enabled / disabled / differently ready
+	Enabled []int // of those: the threads that could not run before this step and can after it
+}
+
+type threadSnap struct {
+	enabled bool
+	mask    uint64
+}
+
+type realChanMarker struct{}
+
+// RealChan stands for "a channel the shim does not own" in the object list of a select.
+var RealChan any = &realChanMarker{}
+
+// NetGlobal is the object of operations on the table of listening ports.
+var NetGlobal any = &realChanMarker{}
+
+// FSGlobal is the object of every operation on the (in-memory) file system, RandGlobal the one of
+// the shared random-number generator: such operations conflict with each other only.
+var FSGlobal any = &realChanMarker{}
+var RandGlobal any = &realChanMarker{}
+
+// TimerGlobal is the object of arming, stopping and resetting timers (the firing of a timer is a
+// step of its own that commutes with nothing).
+var TimerGlobal any = &realChanMarker{}
+
+// ModeObj qualifies how an operation uses its object: two uses conflict unless both only read
+// it or both update it commutatively (counter increments whose result is not observed).
+type ModeObj struct {
+	Obj  any
+	Mode uint8 // 1: read only, 2: commutative update
+}
+
+//go:norace
+func ReadOnly(o any) any { return ModeObj{o, 1} }
+
+//go:norace
+func Commutative(o any) any { return ModeObj{o, 2} }
+
+// Conflict reports whether two footprint entries denote uses of one object that do not commute.
+//go:norace
+func Conflict(a, b any) bool {
+	ma, mb := uint8(0), uint8(0)
+	if m, ok := a.(ModeObj); ok {
+		a, ma = m.Obj, m.Mode
+	}
+	if m, ok := b.(ModeObj); ok {
+		b, mb = m.Obj, m.Mode
+	}
+	if a != b || a == nil {
+		return false
+	}
+	return ma == 0 || mb == 0 || ma != mb
+}
+
+// Touch records that the running step used a synchronisation object without passing a
+// scheduling point for it (Unlock, the peer queue of a connection ...).
+//go:norace
+func Touch(obj any) {
+	if s := Cur; s != nil && s.POR {
+		s.stepObjs = append(s.stepObjs, obj)
+	}
+}
+
+// TouchAll: the running step did something no other step commutes with (random numbers, the
+// file system, timers, the clock).
+//go:norace
+func TouchAll() {
+	if s := Cur; s != nil && s.POR {
+		s.stepAll = true
+	}
+}
+
+// NoteLock / NoteUnlock keep the set of mutexes the running thread holds.
+//go:norace
+func NoteLock(m any) {
+	if s := Cur; s != nil && s.POR && s.cur != nil {
+		s.cur.held = append(s.cur.held, m)
+	}
+}
+
+//go:norace
+func NoteUnlock(m any) {
+	s := Cur
+	if s == nil || !s.POR {
+		return
+	}
+	// Releasing a mutex is not recorded as a use of it: two critical sections conflict through
+	// their acquisitions (lock/lock is the racing pair whose order the explorer reverses). An
+	// unlock -> lock edge would order every second acquisition after the first one and hide
+	// exactly those races.
+	drop := func(t *Thread) bool {
+		for i := len(t.held) - 1; i >= 0; i-- {
+			if t.held[i] == m {
+				t.held = append(t.held[:i], t.held[i+1:]...)
+				return true
+			}
+		}
+		return false
+	}
+	if s.cur != nil && drop(s.cur) {
+		return
+	}
+	for _, t := range s.threads { // unlocked by another thread than the locker
+		if drop(t) {
+			return
+		}
+	}
+}
+
+// SelInfo is the object of a pending select: the channels of its cases and the set of cases
+// that are ready. A channel the shim does not own (lane.Done(), only ever closed) cannot be
+// recorded in the footprint of the step that closes it; instead a sleeping select wakes when
+// its set of ready cases changes.
+type SelInfo struct {
+	Objs []any
+	Mask func() uint64
+}
+
+//go:norace
+func flattenObjs(o any, out []any) []any {
+	if si, ok := o.(*SelInfo); ok {
+		return append(out, si.Objs...)
+	}
+	if l, ok := o.([]any); ok {
+		for _, e := range l {
+			out = flattenObjs(e, out)
+		}
+		return out
+	}
+	return append(out, o)
+}
+
+//go:norace
+func (s *Sched) beginStep(t *Thread) {
+	s.stepObjs = s.stepObjs[:0]
+	s.stepAll = false
+	switch t.kind {
+	case OpStart, OpGo, OpQuiesce:
+	case OpYield:
+		s.stepAll = true // a sleeping thread resumes because of any step of any thread
+	default:
+		if t.obj == nil {
+			s.stepAll = true
+		}
+		s.stepObjs = flattenObjs(t.obj, s.stepObjs)
+	}
+	s.Steps = append(s.Steps, StepRec{Tid: t.ID, Point: s.stepPoint})
+	s.stepPoint = -1
+	if len(s.Hint) > 0 && s.Hint[0] == t.ID && len(s.Choices) >= len(s.prefix) {
+		s.Hint = s.Hint[1:]
+	}
+	s.takeSnap(t)
+}
+
+//go:norace
+func (s *Sched) takeSnap(running *Thread) {
+	s.snap = s.snap[:0]
+	for _, t := range s.threads {
+		sn := threadSnap{}
+		if t != running && !t.done && t.parked {
+			sn.enabled = s.isEnabled(t)
+			if si, ok := t.obj.(*SelInfo); ok {
+				sn.mask = si.Mask()
+			}
+		}
+		s.snap = append(s.snap, sn)
+	}
+}
+
+// closeStep completes the record of the step that has just ended.
+//go:norace
+func (s *Sched) closeStep() {
+	if len(s.Steps) == 0 {
+		return
+	}
+	r := &s.Steps[len(s.Steps)-1]
+	if r.Objs != nil || r.Tid < 0 {
+		return // already closed
+	}
+	r.Objs = make([]any, 0, len(s.stepObjs))
+	for _, o := range s.stepObjs {
+		if o != nil && o != RealChan {
+			r.Objs = append(r.Objs, o)
+		}
+	}
+	r.All = s.stepAll
+	for i, t := range s.threads {
+		if t.ID == r.Tid {
+			continue
+		}
+		var was threadSnap
+		if i < len(s.snap) {
+			was = s.snap[i]
+		}
+		now := threadSnap{}
+		if !t.done && t.parked {
+			now.enabled = s.isEnabled(t)
+			if si, ok := t.obj.(*SelInfo); ok {
+				now.mask = si.Mask()
+			}
+		}
+		if was != now && t.kind != OpLock && t.kind != OpRLock {
+			// (waiting for a mutex: covered by the lock/lock conflict, see NoteUnlock)
+			r.Changed = append(r.Changed, t.ID)
+			if !was.enabled && now.enabled {
+				r.Enabled = append(r.Enabled, t.ID)
+			}
+		}
+	}
+}
+
+// endStep wakes the sleeping threads whose pending operation does not commute with the step
+// that has just been executed.
+//go:norace
+func (s *Sched) endStep() {
+	s.closeStep()
+	if len(s.sleep) == 0 {
+		return
+	}
+	if s.stepAll {
+		s.sleep = nil
+		return
+	}
+	for _, o := range s.stepObjs {
+		if m, ok := o.(ModeObj); ok {
+			o = m.Obj
+		}
+		// the next step of a sleeping thread may use one of the global objects without that
+		// being visible in its pending operation
+		if o == NetGlobal || o == FSGlobal || o == RandGlobal || o == TimerGlobal {
+			s.sleep = nil
+			return
+		}
+	}
+	for tid := range s.sleep {
+		t := s.threads[tid]
+		if t.done || !s.isEnabled(t) || s.dependent(t) {
+			delete(s.sleep, tid)
+		}
+	}
+}
+
+//go:norace
+func (s *Sched) dependent(t *Thread) bool {
+	switch t.kind {
+	case OpYield:
+		return true
+	case OpStart, OpGo:
+		return false
+	}
+	var buf [8]any
+	objs := flattenObjs(t.obj, buf[:0])
+	objs = append(objs, t.held...)
+	if si, ok := t.obj.(*SelInfo); ok && si.Mask() != t.sleepMask {
+		return true
+	}
+	for _, o := range objs {
+		if o == RealChan {
+			continue // see SelInfo
+		}
+		if o == nil {
+			return true
+		}
+		for _, f := range s.stepObjs {
+			if Conflict(f, o) {
+				return true
+			}
+		}
+	}
+	return false
+}
+
+//go:norace
+func (s *Sched) pick0(cur *Thread) *Thread {
 	for {
 		if s.ending {
 			return nil
@@ -440,15 +786,25 @@ func (s *Sched) pick(cur *Thread) *Thread {
 			}
 		}
 		var tm *timerObj
-		if len(alts) == 0 || s.TimerAlts {
+		if len(alts) == 0 || (s.TimerAlts && (s.TimerAltBudget == 0 || s.timerAltsUsed < s.TimerAltBudget)) {
 			tm = s.earliestTimer()
 		}
 		if len(alts) == 0 {
+			if tm != nil && s.QuiesceFirst {
+				for _, t := range s.threads {
+					if !t.done && t.parked && t.kind == OpQuiesce {
+						tm = nil
+						break
+					}
+				}
+			}
 			if tm != nil {
+				s.sleep = nil
 				s.fireTimer(tm)
 				continue
 			}
 			if s.OnQuiescent != nil && s.OnQuiescent() {
+				s.sleep = nil
 				continue
 			}
 			// a harness thread waiting for quiescence runs now
@@ -494,12 +850,71 @@ func (s *Sched) pick(cur *Thread) *Thread {
 			n++
 		}
 		idx := 0
-		if n > 1 {
-			idx = s.decide(n)
+		if s.POR {
+			if s.Serial {
+				s.sleep = nil
+			} else {
+				if n > 1 {
+					if add := s.SleepAdd[len(s.Choices)]; len(add) > 0 {
+						if s.sleep == nil {
+							s.sleep = map[int]bool{}
+						}
+						for _, tid := range add {
+							if tid >= len(s.threads) {
+								// the run differs from the one the explorer derived this node from
+								s.Divergence = fmt.Sprintf("choice %d: sleep set names thread %d, only %d threads exist", len(s.Choices), tid, len(s.threads))
+								s.Term = TermStopped
+								s.finish()
+								return nil
+							}
+							s.sleep[tid] = true
+							if si, ok := s.threads[tid].obj.(*SelInfo); ok {
+								s.threads[tid].sleepMask = si.Mask()
+							}
+						}
+					}
+				}
+				idx = -1
+				if len(s.Hint) > 0 && len(s.Choices) >= len(s.prefix) {
+					for i, a := range alts {
+						if a.ID == s.Hint[0] && !s.sleep[a.ID] {
+							idx = i
+							break
+						}
+					}
+				}
+				if idx < 0 {
+					for i, a := range alts {
+						if !s.sleep[a.ID] {
+							idx = i
+							break
+						}
+					}
+				}
+				if idx < 0 && tm != nil {
+					idx = len(alts)
+				}
+				if idx < 0 {
+					// every enabled thread is asleep: this execution is covered elsewhere
+					s.SleepBlocked = true
+					s.Term = TermStopped
+					s.finish()
+					return nil
+				}
+			}
+		}
+		if n > 1 && !s.Serial {
+			idx = s.decide(n, idx)
 			if idx < 0 {
 				return nil
 			}
+			s.stepPoint = len(s.Choices) - 1
 			pi := PointInfo{N: n, Chosen: idx, CurEnabled: curEnabled, Thread: -1, Step: s.Step}
+			for _, a := range alts {
+				if s.sleep[a.ID] {
+					pi.Sleep = append(pi.Sleep, a.ID)
+				}
+			}
 			if cur != nil {
 				pi.Kind = cur.kind
 				pi.Thread = cur.ID
@@ -514,6 +929,8 @@ func (s *Sched) pick(cur *Thread) *Thread {
 			s.Points = append(s.Points, pi)
 		}
 		if idx == len(alts) {
+			s.sleep = nil
+			s.timerAltsUsed++
 			s.fireTimer(tm)
 			continue
 		}
@@ -523,9 +940,9 @@ func (s *Sched) pick(cur *Thread) *Thread {
 
 // decide takes the next choice from the prefix (or 0) and records it.
 //go:norace
-func (s *Sched) decide(n int) int {
+func (s *Sched) decide(n int, def int) int {
 	k := len(s.Choices)
-	c := 0
+	c := def
 	if k < len(s.prefix) {
 		c = s.prefix[k]
 		if c >= n {
@@ -546,7 +963,7 @@ func Choose(n int, kind OpKind) int {
 	if s == nil || s.teardown || n <= 1 {
 		return 0
 	}
-	c := s.decide(n)
+	c := s.decide(n, 0)
 	if c < 0 {
 		// divergence: park forever (execution is ending)
 		t := s.cur
@@ -568,6 +985,17 @@ func ObjID(o any) int {
 	if s == nil {
 		return 0
 	}
+	if id, ok := s.objIDs[o]; ok {
+		return id
+	}
+	id := len(s.objIDs) + 1
+	s.objIDs[o] = id
+	return id
+}
+
+// ObjIDOf numbers objects in first-use order (diagnostics).
+//go:norace
+func (s *Sched) ObjIDOf(o any) int {
 	if id, ok := s.objIDs[o]; ok {
 		return id
 	}
@@ -604,9 +1032,10 @@ var now = Epoch
 //go:norace
 func Now() time.Time     { return now }
 //go:norace
-func SetNow(t time.Time) { now = t }
+func SetNow(t time.Time) { now = t; TouchAll() }
 //go:norace
 func Advance(d time.Duration) {
+	TouchAll()
 	now = now.Add(d)
 	if s := Cur; s != nil {
 		s.epoch++
@@ -616,6 +1045,7 @@ func Advance(d time.Duration) {
 // AddTimer registers a timer with the scheduler; fire runs on the scheduler side.
 //go:norace
 func AddTimer(d time.Duration, period time.Duration, fire func(now time.Time)) (stop func() bool, reset func(d time.Duration) bool) {
+	Touch(TimerGlobal)
 	tm := &timerObj{deadline: now.Add(d), period: period, fire: fire, active: true}
 	if d > neverFire || d < 0 && false {
 		// still registered; earliestTimer ignores far-future deadlines
@@ -624,8 +1054,8 @@ func AddTimer(d time.Duration, period time.Duration, fire func(now time.Time)) (
 		tm.seq = len(s.timers)
 		s.timers = append(s.timers, tm)
 	}
-	stop = func() bool { was := tm.active; tm.active = false; return was }
-	reset = func(d time.Duration) bool { was := tm.active; tm.deadline = now.Add(d); tm.active = true; return was }
+	stop = func() bool { Touch(TimerGlobal); was := tm.active; tm.active = false; return was }
+	reset = func(d time.Duration) bool { Touch(TimerGlobal); was := tm.active; tm.deadline = now.Add(d); tm.active = true; return was }
 	return
 }
 
@@ -636,6 +1066,9 @@ func RandTick() {
 	s := Cur
 	if s == nil {
 		return
+	}
+	if s.POR {
+		s.stepObjs = append(s.stepObjs, RandGlobal)
 	}
 	s.RandCalls++
 	if s.RandCalls > 2000000 && !s.teardown {
